@@ -51,7 +51,8 @@ Section Init.
     destruct (loop_index L1 _) as [v2| |]; cbn [rbind] in H; try discriminate.
     destruct (is_collinear v0 v1 v2) as [is_line| |]; cbn [rbind] in H; try discriminate.
     destruct (loop_is_diagonal L1 _) as [is_diag| |]; cbn [rbind] in H; try discriminate.
-    destruct (negb is_line && is_diag); [|eapply IH; eassumption].
+    destruct (ear_test P L1 v0 v1 v2 is_line is_diag) as [is_ear| |]; cbn [rbind] in H; try discriminate.
+    destruct is_ear; [|eapply IH; eassumption].
     destruct (mesh_push v0 v1 v2 (n_triangles t) t) as [t1 r] eqn:Ep.
     assert (I1 : Rinv t t1) by (eapply (inv_of _ (wf_push _ _ _ _) (cnt_push _ _ _ _)); exact Ep).
     destruct r; cbn [rbind] in H; try discriminate.
